@@ -20,7 +20,11 @@ pub mod rand_stub {
 
 pub mod biscuit_auth {
     use vstd::prelude::*;
-    pub mod error { use vstd::prelude::*; #[verifier::external_body] pub struct Token { _p: u8 } }
+    pub mod error {
+        use vstd::prelude::*;
+        pub enum Format { InvalidBlockId(usize), Other }
+        pub enum Token { Format(Format), Other }
+    }
     pub mod builder {
         use vstd::prelude::*;
         pub enum Algorithm { Ed25519, Secp256r1 }
@@ -52,6 +56,7 @@ pub mod biscuit_auth {
     pub uninterp spec fn pk_is_ed25519(k: PublicKey) -> bool;
     pub uninterp spec fn token_wire_len(b: Biscuit) -> nat;
     pub uninterp spec fn sealed_of(b: Biscuit) -> Biscuit;
+    pub uninterp spec fn token_block_count(b: Biscuit) -> nat;
     impl KeyPair {
         #[verifier::external_body]
         pub fn new_with_rng(algorithm: builder::Algorithm, rng: &mut crate::rand_stub::StdRng) -> KeyPair { unimplemented!() }
@@ -86,7 +91,10 @@ pub mod biscuit_auth {
         #[verifier::external_body]
         pub fn seal(&self) -> (r: Result<Biscuit, error::Token>) ensures r is Ok ==> r->Ok_0 == sealed_of(*self) { unimplemented!() }
         #[verifier::external_body]
-        pub fn block_count(&self) -> usize { unimplemented!() }
+        pub fn block_count(&self) -> (r: usize) ensures r == token_block_count(*self) { unimplemented!() }
+        // one context entry per block (token unit: Biscuit::context ensures.len)
+        #[verifier::external_body]
+        pub fn context(&self) -> (r: Vec<Option<String>>) ensures r@.len() == token_block_count(*self) { unimplemented!() }
     }
 }
 
@@ -164,6 +172,20 @@ pub mod capi {
     //@ rewrites R9 R17
     //@ ensures announced: biscuit is Some && r != 0 ==> r == biscuit_auth::token_wire_len(biscuit_auth::sealed_of(biscuit->Some_0.0))
     //@ ensures null: biscuit is None ==> r == 0
+    //@end
+    // stand-ins for std::ffi::CString / c_char (ASSUMED: new refuses interior NULs, into_raw never fails)
+    #[allow(non_camel_case_types)]
+    pub type c_char = i8;
+    #[verifier::external_body] pub struct CString { _p: u8 }
+    #[verifier::external_body] pub struct NulError { _p: u8 }
+    impl CString {
+        #[verifier::external_body]
+        pub fn new(s: String) -> Result<CString, NulError> { unimplemented!() }
+        #[verifier::external_body]
+        pub fn into_raw(self) -> *mut c_char { unimplemented!() }
+    }
+    //@extract biscuit-capi/src/lib.rs :: fn biscuit_block_context
+    //@ rewrites R9 R17
     //@end
     //@extract biscuit-capi/src/lib.rs :: fn biscuit_block_count
     //@ rewrites R9 R17
